@@ -5,7 +5,7 @@ import json, subprocess
 BUILT = {
     # property id -> True when the check exists and is claimed
     "C01": True, "C02": True, "C07": True, "C08": True, "C09": True, "C17": True,
-    "C03": True, "C04": True, "C05": True, "C06": True, "C10": True, "C11": True, "C12": True, "C13": True, "C14": True,
+    "C03": True, "C04": True, "C05": True, "C06": True, "C10": True, "C11": True, "C12": True, "C13": True, "C14": True, "C15": True, "C16": True,
     "C18": True, "C19": True, "C20": True,
 }
 
